@@ -11,6 +11,7 @@ import (
 	"bytes"
 	"context"
 	"fmt"
+	"go/ast"
 	"os"
 	"os/exec"
 	"path/filepath"
@@ -48,6 +49,8 @@ type Obligation struct {
 	Cover    bool              // vacuity check: goal must be SAT (reachable)
 	ModelQ   []string          // terms to evaluate when a model is found
 	ModelTag map[string]string // term -> role label for replay
+	Clause   ast.Expr          // the contract clause (conjunct) behind a post obligation, for replay
+	ClausePkg string
 	idx      int               // position in script
 	script   *Script
 
